@@ -30,7 +30,7 @@ Print Assumptions C17_input_moves_reserves.
 
 (* limits: receiving base (AddToAmm) needs base >= limit, owing base (RemoveFromAmm) base <= limit *)
 Theorem C17_input_limit : forall v e s d quote lim cgo base r,
-  quote <> 0 -> lim <> 0 -> q_input_amount v d quote = Ok base ->
+  lim <> 0 -> q_input_amount v d quote = Ok base ->
   (swap_input v e s d quote lim cgo = Ok r <->
    input_limit_met d base lim = true /\ swap_input v e s d quote 0 cgo = Ok r).
 Proof. exact swap_input_limit_iff. Qed.
@@ -38,7 +38,7 @@ Print Assumptions C17_input_limit.
 
 (* selling base (AddToAmm) needs quote >= limit, buying base back (RemoveFromAmm) quote <= limit *)
 Theorem C17_output_limit : forall v e s d base lim quote r,
-  base <> 0 -> lim <> 0 -> q_output_amount v d base = Ok quote ->
+  lim <> 0 -> q_output_amount v d base = Ok quote ->
   (swap_output v e s d base lim = Ok r <->
    output_limit_met d quote lim = true /\ swap_output v e s d base 0 = Ok r).
 Proof. exact swap_output_limit_iff. Qed.
